@@ -250,8 +250,15 @@ def step (s : St) (toks : List String) : St × String :=
   | "RESET" :: b :: d :: sfx :: cur :: fmt :: rest =>
     match hexToText b, optText d, optText sfx, optText cur, fmt.toNat?, parseCfg rest with
     | some b, some d, some sfx, some cur, some fmt, some cfg =>
+      let spec' : Names.Spec := ⟨b, d, sfx, cur.getD "rCURRENT".toList, fmt⟩
+      if spec' == s.spec then
+        -- `reset_flw` onto the SAME family: the old state is dropped (its writer flushes) and a fresh
+        -- `Initial` state takes over the same directory — a flush followed by a restart of the writer
+        let (s1, _) := apply s .flush 0 {}
+        apply s1 (.restart (s.patch cfg)) 0 {}
+      else
       let (s', r) := apply s (.reset (s.patch cfg)) 0 {}
-      ({ s' with oldSpecs := s.oldSpecs ++ [s.spec], spec := ⟨b, d, sfx, cur.getD "rCURRENT".toList, fmt⟩ }, r)
+      ({ s' with oldSpecs := s.oldSpecs ++ [s.spec], spec := spec' }, r)
     | _, _, _, _, _, _ => (s, "bad-op")
   | ["EXTREN"] => apply s .extRename 0 {}
   | ["EXTRM"] => apply s .extRemove 0 {}
